@@ -15,7 +15,10 @@ at one of their effects, run against the real KeychainSqlite3 + TpmFile in a scr
        the stored public key of the selected key, and that key is listed in the keychain;
      - every self-signed certificate listed by a Key verifies under the key bits of that Key;
      - fault recovery: an operation that failed by an injected fault is repeated and must end in the
-       same observable state / result as a clean run of it on a copy of the store taken before.
+       same observable state / result as a clean run of it on a copy of the store taken before;
+     - no row of table keys / certificates that no Identity / Key view lists ("valid references").
+ * strata: plain histories, the name-reuse stratum, the cardinality stratum (one owner with up to 130 items, built
+   and deleted in batches of quiet steps that are judged at the observation that closes the batch).
 """
 import base64
 import os
